@@ -23,7 +23,8 @@ impl FaceIntegral for VoronoiFaceIntegral {
         Self {
             area: 0.,
             centroid: DVec3::ZERO,
-            normal: cell.clipping_planes[clipping_plane_idx].plane.n,
+            // The clipping planes' normals point into the cell, i.e. towards the left generator.
+            normal: -cell.clipping_planes[clipping_plane_idx].plane.n,
         }
     }
 
